@@ -60,6 +60,7 @@ type Stmt struct {
 	Err      string
 	Affected int
 	Hit      [][]driver.Value // select: the full rows that matched
+	Def      TableDef         // the table's definition when the statement ran (Table != "")
 }
 
 // Event is one committed row change: Before/After are full rows in table column order (nil = absent).
@@ -118,6 +119,30 @@ func (d *DB) AlterAddColumn(tbl string, c ColDef) {
 	t.def.Cols = append(t.def.Cols, c)
 	for i := range t.rows {
 		t.rows[i] = append(t.rows[i], nil)
+	}
+	d.nextTID++
+	t.id = d.nextTID
+}
+
+// AlterDropColumn removes a column (and its values) and gives the table a new id.
+func (d *DB) AlterDropColumn(tbl, name string) {
+	d.mu.Lock()
+	defer d.mu.Unlock()
+	t := d.tables[tbl]
+	k := -1
+	for i, c := range t.def.Cols {
+		if c.Name == name {
+			k = i
+		}
+	}
+	if k < 0 {
+		return
+	}
+	cols := append([]ColDef{}, t.def.Cols[:k]...)
+	t.def.Cols = append(cols, t.def.Cols[k+1:]...)
+	for i := range t.rows {
+		r := append([]driver.Value{}, t.rows[i][:k]...)
+		t.rows[i] = append(r, t.rows[i][k+1:]...)
 	}
 	d.nextTID++
 	t.id = d.nextTID
@@ -662,6 +687,9 @@ func (c *conn) logStmt(s Stmt, err error) {
 		s.Err = err.Error()
 	}
 	s.InTx = c.inTx
+	if t, ok := c.d.tables[s.Table]; ok {
+		s.Def = t.def
+	}
 	c.d.log = append(c.d.log, s)
 	if h := c.d.OnStmt; h != nil {
 		h(s)
